@@ -4,6 +4,7 @@ import (
 	"fmt"
 	"go/token"
 	"go/types"
+	"strings"
 
 	"golang.org/x/tools/go/ssa"
 
@@ -21,15 +22,16 @@ func init() {
 			"(R4) the per-packet limit measures the current packet only: the test is evaluated after the new-id discard and the append, and involves only the packet's own length; " +
 			"plus shared: done-gated return / monotone ids / kind check (C01.R5), (n>0,err) handling and rerr confinement (C05.R8), compiler-proved bounds in reader.go.",
 		NotDecided: "independence from the read partition beyond R3 (leftover preservation and compaction are value-dependent); equality with the reference reassembly for all frame sequences; the exact multiple in the memory bound.",
-		Rules: []Rule{
+		Rules: append([]Rule{
 			{ID: "C09.R1", Doc: "memory bound: size test before every read, geometric growth only, size test after every append, positive default maximum", Run: c09r1},
 			{ID: "C09.R2", Doc: "control flag or-ed per frame; new id resets the packet (id, kind, control from the frame; data emptied)", Run: c09r2},
 			{ID: "C09.R3", Doc: "no size test on the read buffer between a transport read and the next ParseFrame", Run: c09r3},
 			{ID: "C09.R4", Doc: "the per-packet limit test is evaluated after the discard/append and measures only the packet's own length", Run: c09r4},
+			{ID: "C09.R6", Doc: "ID.Less is the lexicographic order on (Stream, Message): decided over the nine orderings of the two fields (the function touches its operands only through comparisons of the same field)", Run: c09r6},
 			{ID: "C09.R5", Doc: "bounds checks in the reader are compiler-proved", Run: c09r5},
 			{ID: "C09.S1", Alias: "C01.R5"},
 			{ID: "C09.S2", Alias: "C05.R8"},
-		},
+		}, disciplineRules("C09", "drpcwire")...),
 	})
 }
 
@@ -547,6 +549,41 @@ func c09r3(c *an.Ctx) {
 				okT = false
 			}
 		}
+		// the incomplete frame's header is not payload: the test allows for a maximal frame header (control byte and
+		// three varints) on top of the maximum
+		if cmp, isCmp := br.Cond.(*ssa.BinOp); isCmp {
+			side := cmp.X
+			if isLoadOfField(cmp.X, ra.maxF) {
+				side = cmp.Y
+			}
+			allowance := int64(0)
+			var walkK func(v ssa.Value, sign int64, depth int)
+			walkK = func(v ssa.Value, sign int64, depth int) {
+				b, isB := v.(*ssa.BinOp)
+				if !isB || depth > 4 {
+					return
+				}
+				switch b.Op {
+				case token.SUB:
+					if k, isK := an.ConstInt(b.Y); isK {
+						allowance += sign * k
+					} else {
+						walkK(b.Y, -sign, depth+1)
+					}
+					walkK(b.X, sign, depth+1)
+				case token.ADD:
+					if k, isK := an.ConstInt(b.Y); isK {
+						allowance -= sign * k
+					} else {
+						walkK(b.Y, sign, depth+1)
+					}
+					walkK(b.X, sign, depth+1)
+				}
+			}
+			walkK(side, 1, 0)
+			c.Check(allowance >= 1+3*9, "ReadPacketUsing | read-buffer size test leaves room for a maximal frame header", c.At(in), fmt.Sprint(allowance),
+				fmt.Sprintf("the bytes of an incomplete frame are compared with the maximum without an allowance for its header (allowance %d, a header takes up to %d bytes): a legal frame whose payload is at the maximum is accepted when it arrives in one read and rejected when the reads split it", allowance, 1+3*9))
+		}
 		c.Check(okT, "ReadPacketUsing | read-buffer size test measures parsed-and-incomplete bytes only", c.At(in), "",
 			"the size limit is applied to the read buffer right after a transport read, before ParseFrame has seen the bytes: complete frames a large read returned are counted, so the same byte stream is accepted or rejected depending on how the transport splits it into reads")
 	})
@@ -617,4 +654,190 @@ func c09r5(c *an.Ctx) {
 	in := map[string]bool{"(*Reader).ReadPacketUsing": true, "(*Reader).read": true, "(*Reader).ReadPacket": true, "NewReaderWithOptions": true, "NewReader": true}
 	n := checkBCE(c, in, "reader")
 	c.Ok("reader | compiler BCE report consulted", "-", fmt.Sprintf("%d residual bounds checks in the reader (0 expected)", n))
+}
+
+// c09r6: ID.Less touches its operands only through comparisons of the same
+// field of the two ids, so it is decided over the nine orderings of
+// (Stream, Message): it must be the lexicographic order. The watermark test of
+// the reader ("ids never go backwards") is exactly this function.
+func c09r6(c *an.Ctx) {
+	fn := c.Fn("drpcwire", "(ID).Less")
+	c.Analysed(fn)
+	if len(fn.Params) != 2 {
+		panic(&an.Unresolved{What: "ID.Less(j ID)"})
+	}
+	// which operand a local copy holds
+	side := map[ssa.Value]int{}
+	an.Instrs(fn, func(in ssa.Instruction) {
+		if st, ok := in.(*ssa.Store); ok {
+			for i, p := range fn.Params {
+				if st.Val == ssa.Value(p) {
+					side[st.Addr] = i + 1
+				}
+			}
+		}
+	})
+	type sym struct {
+		side  int
+		field string // "" = the whole id
+	}
+	rels := []string{"<", "=", ">"}
+	var bad []string
+	for _, rs := range rels {
+		for _, rm := range rels {
+			rel := map[string]string{"Stream": rs, "Message": rm}
+			vals := map[ssa.Value]interface{}{}
+			get := func(v ssa.Value) interface{} {
+				if k, ok := v.(*ssa.Const); ok && k.Value != nil {
+					switch k.Value.String() {
+					case "true":
+						return true
+					case "false":
+						return false
+					}
+				}
+				if p, ok := v.(*ssa.Parameter); ok {
+					for i, q := range fn.Params {
+						if q == p {
+							return sym{i + 1, ""}
+						}
+					}
+				}
+				return vals[v]
+			}
+			cmp := func(op token.Token, r string) (bool, bool) {
+				switch op {
+				case token.LSS:
+					return r == "<", true
+				case token.LEQ:
+					return r != ">", true
+				case token.GTR:
+					return r == ">", true
+				case token.GEQ:
+					return r != "<", true
+				case token.EQL:
+					return r == "=", true
+				case token.NEQ:
+					return r != "=", true
+				}
+				return false, false
+			}
+			flip := map[string]string{"<": ">", "=": "=", ">": "<"}
+			blk, prev := fn.Blocks[0], (*ssa.BasicBlock)(nil)
+			var result interface{}
+			und := ""
+		run:
+			for steps := 0; steps < 200; steps++ {
+				for _, in := range blk.Instrs {
+					switch x := in.(type) {
+					case *ssa.Alloc, *ssa.Store, *ssa.DebugRef:
+					case *ssa.FieldAddr:
+						if s, ok := side[x.X]; ok {
+							st := x.X.Type().Underlying().(*types.Pointer).Elem().Underlying().(*types.Struct)
+							vals[x] = sym{s, st.Field(x.Field).Name()}
+						}
+					case *ssa.Field:
+						if s, ok := get(x.X).(sym); ok && s.field == "" {
+							st := x.X.Type().Underlying().(*types.Struct)
+							vals[x] = sym{s.side, st.Field(x.Field).Name()}
+						}
+					case *ssa.UnOp:
+						switch x.Op {
+						case token.MUL:
+							if s, ok := side[x.X]; ok {
+								vals[x] = sym{s, ""}
+							} else if v := vals[x.X]; v != nil {
+								vals[x] = v
+							}
+						case token.NOT:
+							if b, ok := get(x.X).(bool); ok {
+								vals[x] = !b
+							}
+						}
+					case *ssa.BinOp:
+						l, r := get(x.X), get(x.Y)
+						ls, lok := l.(sym)
+						rsy, rok := r.(sym)
+						switch {
+						case lok && rok && ls.field == rsy.field && ls.side != rsy.side && ls.field != "":
+							rr := rel[ls.field]
+							if ls.side == 2 {
+								rr = flip[rr]
+							}
+							if b, ok := cmp(x.Op, rr); ok {
+								vals[x] = b
+							}
+						case lok && rok && ls.field == "" && rsy.field == "" && ls.side != rsy.side:
+							eq := rs == "=" && rm == "="
+							if x.Op == token.EQL {
+								vals[x] = eq
+							} else if x.Op == token.NEQ {
+								vals[x] = !eq
+							}
+						default:
+							lb, lbo := l.(bool)
+							rb, rbo := r.(bool)
+							if lbo && rbo {
+								switch x.Op {
+								case token.EQL:
+									vals[x] = lb == rb
+								case token.NEQ:
+									vals[x] = lb != rb
+								case token.AND:
+									vals[x] = lb && rb
+								case token.OR:
+									vals[x] = lb || rb
+								}
+							}
+						}
+						if vals[x] == nil {
+							und = "a comparison that is not between the same field of the two ids: " + x.String()
+							break run
+						}
+					case *ssa.Phi:
+						for i, p := range blk.Preds {
+							if p == prev {
+								vals[x] = get(x.Edges[i])
+							}
+						}
+					case *ssa.If:
+						b, ok := get(x.Cond).(bool)
+						if !ok {
+							und = "a branch on something else than a comparison of id fields"
+							break run
+						}
+						prev = blk
+						if b {
+							blk = blk.Succs[0]
+						} else {
+							blk = blk.Succs[1]
+						}
+						continue run
+					case *ssa.Jump:
+						prev, blk = blk, blk.Succs[0]
+						continue run
+					case *ssa.Return:
+						result = get(x.Results[0])
+						break run
+					default:
+						und = "instruction " + in.String()
+						break run
+					}
+				}
+			}
+			if und != "" {
+				panic(&an.Unresolved{What: "ID.Less as a function of the two field orderings (" + und + ")"})
+			}
+			got, ok := result.(bool)
+			if !ok {
+				panic(&an.Unresolved{What: "the result of ID.Less for Stream " + rs + ", Message " + rm})
+			}
+			want := rs == "<" || (rs == "=" && rm == "<")
+			if got != want {
+				bad = append(bad, fmt.Sprintf("Stream %s and Message %s gives %v", rs, rm, got))
+			}
+		}
+	}
+	c.Check(len(bad) == 0, "ID.Less | is the lexicographic order on (Stream, Message), decided over the nine orderings of the two fields", c.P.Pos(fn.Pos()), "",
+		"ID.Less is not the lexicographic order ("+strings.Join(bad, "; ")+"): the reader's watermark test lets a frame of an older stream or message through (ids go backwards) or rejects a newer one")
 }
